@@ -145,15 +145,19 @@ impl Instance {
         self.calls += 1;
         let methods = self.methods.as_ref().expect("instance is open").clone();
         let to = self.timeout;
+        // the watchdog runs on the calling thread: a handler that blocks its worker thread synchronously (a std lock it can
+        // never get) cannot keep the timer from firing
         let handle = self.rt.spawn(async move {
-            let r = tokio::time::timeout(to, methods.raw_json_request(&request, 1)).await;
-            match r {
-                Err(_) => Err("timeout".to_string()),
-                Ok(Err(e)) => Ok(Err(format!("request did not parse: {}", e))),
-                Ok(Ok((resp, _rx))) => Ok(Ok(resp.get().to_string())),
+            match methods.raw_json_request(&request, 1).await {
+                Err(e) => Ok(Err(format!("request did not parse: {}", e))),
+                Ok((resp, _rx)) => Ok(Ok(resp.get().to_string())),
             }
         });
-        let joined = self.rt.block_on(handle);
+        let joined: Result<Result<Result<String, String>, String>, tokio::task::JoinError> =
+            match self.rt.block_on(async { tokio::time::timeout(to, handle).await }) {
+                Err(_) => Ok(Err("timeout".to_string())),
+                Ok(j) => j,
+            };
         match joined {
             Err(e) => {
                 self.panics += 1;
